@@ -2,9 +2,9 @@
 
 ORACLES = {
     "C04": {"holder_accepts_issued", "fresh_e", "fresh_v", "cl_equation", "e_prime_in_range", "vpp_bits", "m2_context",
-            "model_issuer_accepted"},
+            "model_issuer_accepted", "issuer_covers_every_attribute"},
     "C05": {"issuer_rejects_altered", "holder_rejects_altered", "holder_rejects_altered_key", "holder_accepts_issued", "key_proof_accepted",
-            "reference_issuer_verdict", "reference_holder_accepted", "holder_no_panic"},
+            "reference_issuer_verdict", "reference_holder_accepted", "holder_no_panic", "issuer_covers_every_attribute"},
     "C06": {"one_r_per_attribute", "revocation_part_presence", "key_proof_accepted", "rev_key_corresponds",
             "rev_generators_distinct", "holder_rejects_altered_key", "key_oracle", "key_proof_accepted", "key_proof_covers_all"},
     "C07": {"holder_accepts_issued", "reference_issuer_verdict", "reference_holder_accepted"},
